@@ -2018,8 +2018,14 @@ impl Db {
 			// their failure like one of a worker.
 			self.inner.store_err(Err(e));
 		}
-		if let Err(e) = self.inner.lock_file.unlock() {
-			log::debug!(target: "parity-db", "Error removing file lock: {:?}", e);
+		// A tree reader that the client still holds owns the database too and reads through its
+		// mappings: the directory stays locked until the last of them is gone (the lock goes with
+		// the lock file then). Another open would start with an empty reader registry and remove
+		// the tree under the reader's guard.
+		if Arc::strong_count(&self.inner) == 1 {
+			if let Err(e) = self.inner.lock_file.unlock() {
+				log::debug!(target: "parity-db", "Error removing file lock: {:?}", e);
+			}
 		}
 	}
 }
